@@ -38,15 +38,18 @@ TipSetSegs(ts) ==
   \o <<B(CidPrefix), H(WDigest, <<"keycid", ts.key>>)>>
   \o (IF Variant = "tsNoPT" THEN <<>> ELSE <<B(ts.pt)>>)
 
-\* ------------------------------------------------------------------ symbolic flattening
-\* every byte becomes a 3-tuple so that TLC never compares an integer with a term
-RECURSIVE Flat(_)
-Flat(segs) ==
-  IF segs = <<>> THEN <<>>
-  ELSE LET s == Head(segs)
-           f == IF s.k = "b" THEN [i \in 1..Len(s.v) |-> <<"b", s.v[i], 0>>]
-                ELSE [i \in 1..s.w |-> <<"h", s.of, i>>]
-       IN f \o Flat(Tail(segs))
+\* ------------------------------------------------------------------ symbolic byte strings
+\* The byte string of a layout is represented canonically as the sequence of its maximal runs of concrete bytes
+\* [b |-> <<ints>>] separated by opaque blocks [h |-> term, w |-> width].  Under the symbolic-hash reading (an
+\* opaque block never equals concrete bytes, two opaque blocks are equal iff same term and width) two layouts
+\* denote the same bytes iff these sequences are equal; TLC never compares an integer with a term.
+RECURSIVE FlatFrom(_, _)
+FlatFrom(segs, run) ==
+  IF segs = <<>> THEN (IF run = <<>> THEN <<>> ELSE <<[b |-> run]>>)
+  ELSE LET s == Head(segs) IN
+       IF s.k = "b" THEN FlatFrom(Tail(segs), run \o s.v)
+       ELSE (IF run = <<>> THEN <<>> ELSE <<[b |-> run]>>) \o <<[h |-> s.of, w |-> s.w]>> \o FlatFrom(Tail(segs), <<>>)
+Flat(segs) == FlatFrom(segs, <<>>)
 RECURSIVE SegLen(_)
 SegLen(segs) == IF segs = <<>> THEN 0
                 ELSE (IF Head(segs).k = "b" THEN Len(Head(segs).v) ELSE Head(segs).w) + SegLen(Tail(segs))
